@@ -106,12 +106,32 @@ def value(kind, kwargs):
     raise ValueError(kind)
 
 
+_SLOW = None
+
+
+def _slow_keys():
+    """child processes only (C16): settings whose evaluation takes longer, so that
+    a real worker pool finishes a later case before an earlier one"""
+    global _SLOW
+    if _SLOW is None:
+        _SLOW = set()
+        path = os.environ.get("XSIM_SLOW_KEYS")
+        if path and os.path.exists(path):
+            with open(path) as f:
+                _SLOW = {tuple((a, b) for a, b in k) for k in json.load(f)}
+    return _SLOW
+
+
 def call(kind, kwargs):
     k = key(kwargs)
     path = os.environ.get("XSIM_CALLLOG")
     if path:
         with open(path, "a") as f:
             f.write(json.dumps([kind, [list(x) for x in k]]) + "\n")
+        if k in _slow_keys():
+            import time
+
+            time.sleep(float(os.environ.get("XSIM_SLOW_SECONDS", "0.4")))
     LOG.append((kind, k))
     if POISON and k in POISON:
         raise FnError("poisoned setting %r" % (k,))
